@@ -47,7 +47,7 @@ def run_instance(inst, tier):
         paths.append(f"{inst['kind']}-direct-twice")   # second generation on the same generator object
         paths.append(f"{inst['kind']}-direct-shrunk")  # ... after the caller's list lost two zero rows in place
     paths.append(f"{inst['kind']}-direct-grown")       # ... after the caller's (then all-zero) list was refilled in place
-    if inst["kind"] == "fast":
+    if inst["kind"] == "fast" and tier == "thorough":
         paths.append("network-direct-grown")
     for path in paths:
         first = []
